@@ -465,6 +465,20 @@ try:
     if m.current_snapshot_id != order[-2]: bad.append(("repoint-current", m.current_snapshot_id, order[-2]))
     for s in m.snapshots:
         if t.snapshot_manager.get_snapshot_by_id(s.snapshot_id).snapshot_id != s.snapshot_id: bad.append(("by-id", s.snapshot_id))
+    # as-of lookups after an expiry whose cutoff is newer than the current snapshot (it survives as current), then one more commit
+    t2 = create_table(os.path.join(root, "t2"), schema=Schema(schema_id=1, fields=[{"id": 1, "name": "a", "type": "long", "required": False}]))
+    for i in range(3): t2.append_records([{"a": i}]); time.sleep(0.01)
+    survivor = t2.metadata_manager.refresh().snapshots[-1]
+    with t2.new_transaction() as tx:
+        tx.expire_snapshots(survivor.timestamp_ms + 5); tx.commit()
+    time.sleep(0.02); between = int(time.time() * 1000); time.sleep(0.02)
+    t2.append_records([{"a": 9}])
+    got = t2.snapshot_manager.get_snapshot_by_timestamp(between)
+    if got is None or got.snapshot_id != survivor.snapshot_id:
+        bad.append(("as-of after expiry: expected the surviving current snapshot", got and got.snapshot_id, survivor.snapshot_id))
+    latest = t2.metadata_manager.refresh()
+    if [e.snapshot_id for e in latest.snapshot_log] != [s.snapshot_id for s in latest.snapshots]:
+        bad.append(("snapshot log differs from the retained snapshots after expiry", [e.snapshot_id for e in latest.snapshot_log]))
 finally:
     smod.datetime = real
     shutil.rmtree(root, ignore_errors=True)
@@ -1048,6 +1062,22 @@ try:
     for p, v in e5.items():
         if p in e1 and v != e1[p]: bad.append(("file carried through two rewrites re-dated", p, e1[p], v))
     if sorted(e1)[2] not in e5: bad.append("second delete dropped a file that was not named")
+    # the same file registered in TWO manifests (an append_files re-submitted after an ambiguous commit): a delete removes every entry
+    t3 = create_table(os.path.join(root, "t3"), schema=sch)
+    t3.append_records([{"a": 1}]); t3.append_records([{"a": 2}])
+    s_first = t3.metadata_manager.refresh().snapshots[0]
+    dup = [df for m in t3.file_manager.read_manifest_list_file(s_first.manifest_list.lstrip("/"))
+           for df in t3.file_manager.read_manifest_file(m.manifest_path.lstrip("/"))][0]
+    try:
+        with t3.new_transaction() as tx:
+            tx.append_files([dup]); tx.commit()
+        with t3.new_transaction() as tx:
+            tx.delete_files([dup.file_path]); tx.commit()
+        left = entries(t3, t3.metadata_manager.refresh().snapshots[-1])
+        if dup.file_path in left or dup.file_path.lstrip("/") in left:
+            bad.append(("a deleted file is still listed (it was registered in two manifests; only the first was rewritten)", dup.file_path))
+    except Exception as e:
+        print("note: duplicate-registration scenario not applicable:", type(e).__name__, str(e)[:80])
     # the survivor's recorded checksum travels through the rewrites: a survivor whose bytes are swapped for a sibling's must be refused
     def full(t, snap):
         out = {}
